@@ -179,13 +179,13 @@ package vm
 
 //@ type StateDB.SubBalance
 //@   trusted
-//@   ensures bal == store(old(bal), arg0, old(bal)[arg0] - old(big(arg1)))
-//@   assigns bal
+//@   ensures bal == store(old(bal), arg0, old(bal)[arg0] - old(big(arg1))) && supply == old(supply) - old(big(arg1))
+//@   assigns bal, supply
 
 //@ type StateDB.AddBalance
 //@   trusted
-//@   ensures bal == store(old(bal), arg0, old(bal)[arg0] + old(big(arg1)))
-//@   assigns bal
+//@   ensures bal == store(old(bal), arg0, old(bal)[arg0] + old(big(arg1))) && supply == old(supply) + old(big(arg1))
+//@   assigns bal, supply
 
 //@ type StateDB.GetNonce
 //@   trusted
